@@ -105,6 +105,30 @@ def run(chk):
         if len({rep[j], rep[j + n], rep[j + 2 * n], impl[::3][j]}) != 1:
             chk.violate({"kind": "property", "case": lib.show_case(("debsig", [b"<%d bytes>" % len(c[1][0])] + c[1][1:])), "outcomes": sorted({rep[j], rep[j + n], rep[j + 2 * n]}),
                          "explanation": "loading and verifying the same bytes repeatedly gives different outcomes"})
+    # histories on ONE loaded package: a check's outcome depends on its own role and keyring only, never on the
+    # checks made before it (a success must not be remembered for another keyring or role)
+    fresh = {}
+    for (b, r, kr), i in zip(cases, impl):
+        fresh[(b, r, kr)] = ("ok:" + i.split(" ")[1]) if i.startswith("ok") else "err"
+    scases, sexp = [], []
+    for buf, ms, role, key in base:
+        other = (key + 1) % 3
+        steps = [(role, str(key)), (role, str(other)), (role, "e"), (role, str(key) + str(other))] + [(r, str(key)) for r in roles if r != role]
+        for _ in range(chk.n(6, 60)):
+            seq = [rng.choice(steps) for _ in range(rng.randrange(2, 6))]
+            if rng.random() < 0.7:
+                seq[0] = (role, str(key))          # start with a success
+            args = [buf]
+            for r, kr in seq:
+                args += [r, kr.encode()]
+            scases.append(("debsigseq", args)); sexp.append("[ " + " ".join(fresh[(buf, r, kr)] for r, kr in seq) + " ]")
+    si = chk.run_impl(scases)
+    chk.record("check-histories-on-one-package", scases, si, lambda c, r: "ok:" in r)
+    for c, got, want in zip(scases, si, sexp):
+        if got != want:
+            chk.violate({"kind": "property", "case": lib.show_case(("debsigseq", [b"<%d bytes>" % len(c[1][0])] + c[1][1:])), "impl": got, "expected": want,
+                         "explanation": "a check made after other checks on the same loaded package gives another outcome than the same check on a fresh load "
+                                        "(expected = fresh-load outcomes, each judged against the signature oracle above)"})
     chk.extra["stream_sizes"] = counts
     chk.extra["verified_ok"] = ok
     chk.trusted.append("signature oracle: openpgp.CheckDetachedSignature called directly (op sigoracle); signatures made with openpgp.DetachSign")
